@@ -242,6 +242,24 @@ def judge_seq(seq, acc, order):
         acc.report(violation("C07", "sequence", "C07/sequence/does-not-end-at-the-trailing-bytes", "stream", case,
                              f"position {len(want) - len(JUNK_POST)}", f"position {src.pos}, other={src.other}", order))
         return None
+    # the same stream through a small-buffer BufferedReader over a dribbling raw stream (socket file look-alike)
+    br = streams.buffered_source(want, len(JUNK_PRE))
+    try:
+        for n, (ws, inst) in enumerate(insts):
+            got = entity_reader(ws.cls)(br)
+            if got != inst:
+                acc.report(violation("C07", "sequence", "C07/sequence/value-differs-on-buffered-source", "stream",
+                                     dict(case, entity=n), repr(inst)[:600], repr(got)[:600], order))
+                return None
+        rest = br.read()
+    except Exception as e:  # noqa: BLE001
+        acc.report(violation("C07", "sequence", f"C07/sequence/read-raised-on-buffered-source/{exc_name(e)}", "stream", case,
+                             "all messages decode one after another", repr(e)[:300], order))
+        return None
+    if rest != JUNK_POST:
+        acc.report(violation("C07", "sequence", "C07/sequence/buffered-source-does-not-end-at-the-trailing-bytes", "stream", case,
+                             JUNK_POST.hex(), rest.hex()[:100], order))
+        return None
     acc.outcome("sequence decoded in order, ends exactly at the trailing bytes")
     return hash(want)
 
